@@ -278,7 +278,7 @@ def handle (args : List String) : String :=
         let r := ioLine fmt sl doc ln false c
         let sec := if r.2 == "X" then Sec.xref else Sec.docstring
         match r.1 with
-        | .num n => showLine (reportAfterDocAssignment ⟨oldDl, ln, false⟩ sec (n - d)) ++ ":" ++ r.2
+        | .num n => showLine (reportAfterDocAssignment ⟨oldDl, ln, false⟩ sl doc sec (n - d)) ++ ":" ++ r.2
         | .unknown => "???:" ++ r.2
       " ".intercalate ((sortToks toks).eraseDups)
     | _, _, _, _, _, _ => "bad-op"
